@@ -39,7 +39,7 @@ fn rcase(k: usize, env: &Env) -> BoxedStrategy<RCase> {
     (
         gcase(k, env, false),
         prop_oneof![1 => Just(0u8), 2 => Just(1u8), 4 => Just(2u8), 2 => Just(3u8), 1 => Just(4u8)],
-        prop_oneof![2 => Just(0u8), 1 => Just(1u8), 5 => Just(2u8), 1 => Just(3u8)],
+        prop_oneof![2 => Just(0u8), 1 => Just(1u8), 5 => Just(2u8), 1 => Just(3u8), 2 => Just(4u8)],
         any::<u64>(),
         any::<u64>(),
     )
@@ -301,7 +301,27 @@ pub fn check<K: Kmer + Send + Sync, P: PayKind>(c: &RCase) -> CheckResult {
     let base_in: BaseGraph<K, P> = base_from_nodes(&input_nodes, stranded);
     let g_in = if c.cut_seed & 2 == 0 { base_in.finish() } else { base_in.finish_serial() };
     let n_in = g_in.len();
-    let (censor, censored) = censor_list(n_in, c.censor_mode, c.censor_seed);
+    let (censor, censored) = if c.censor_mode == 4 {
+        // censor list produced by the crate's own tip finder (the way compress_graph is used for tip cleaning)
+        let cleaner = debruijn::clean_graph::CleanGraph::new(|n: &debruijn::graph::Node<'_, K, P>| n.len() < 2 * k);
+        let bad = cleaner.find_bad_nodes(&g_in);
+        if bad.iter().any(|i| *i >= n_in) {
+            return Err("find_bad_nodes returned an id outside the graph".into());
+        }
+        for i in &bad {
+            let e = input_nodes[*i].exts;
+            if (e & 0xf) != 0 && (e >> 4) != 0 {
+                return Err(format!("find_bad_nodes reported node {} which has extensions on both sides", i));
+            }
+            if input_nodes[*i].seq.len() >= 2 * k {
+                return Err(format!("find_bad_nodes reported node {} which fails the tip predicate", i));
+            }
+        }
+        let set: BTreeSet<usize> = bad.iter().cloned().collect();
+        (Some(bad), set)
+    } else {
+        censor_list(n_in, c.censor_mode, c.censor_seed)
+    };
 
     // surviving k-mers
     let mut surv_keys: BTreeSet<Seq> = BTreeSet::new();
@@ -354,7 +374,7 @@ pub fn check<K: Kmer + Send + Sync, P: PayKind>(c: &RCase) -> CheckResult {
     .collect();
     let merged = parts.iter().any(|p| !in_parts.contains(p));
     let proper = !censored.is_empty() && censored.len() < n_in;
-    let nontrivial = if c.censor_mode == 2 { proper && merged } else { merged };
+    let nontrivial = if c.censor_mode == 2 || c.censor_mode == 4 { proper && merged } else { merged };
     let unsorted = censor
         .as_ref()
         .map(|v| v.windows(2).any(|w| w[0] >= w[1]))
@@ -364,6 +384,7 @@ pub fn check<K: Kmer + Send + Sync, P: PayKind>(c: &RCase) -> CheckResult {
         .label(proper, "censor_proper_subset")
         .label(unsorted, "censor_list_unsorted_or_dup")
         .label(c.censor_mode == 3, "censor_all")
+        .label(c.censor_mode == 4 && !censored.is_empty(), "censor_from_tip_finder")
         .label(c.shape == 1, "shape_one_kmer_per_node")
         .label(c.shape == 2, "shape_random_cuts")
         .label(c.shape == 3, "shape_combine_shards")
